@@ -37,7 +37,7 @@ Definition row_in (t : tree) (row : revid * option revid * bool) : bool :=
 Definition check (c : case) : bool :=
   match c with
   | CWrite ac tab ops sched outs fin =>
-      let s := run code_fixed ac tab ops sched in
+      let s := run code_fixed true ac tab ops sched in
       list_eqb (option_eqb outcome_eqb) (map w_out (ws s)) outs
       && (d_seq (st s) =? f_seq fin)
       && list_eqb N.eqb (d_unused (st s)) (f_unused fin)
